@@ -206,22 +206,28 @@ func (f *FieldCopyFromGenerator) genObject() *j.Statement {
 			}
 			// if !v.Null
 			g.If(j.Id("!v.Null && !v.Unknown")).BlockFunc(func(g *j.Group) {
-				if !m.IsEmpty {
-					// tf := v
-					g.Id("tf").Op(":=").Id("v")
-
+				if m.IsEmpty {
 					if f.IsNullable {
-						// obj.Nested = &Nested{}
+						// obj.Nested = &Nested{} - a message without fields is still present
 						g.Id(objFieldName).Op("=&").Id(f.i.WithType(f.GoElemTypeIndirect)).Values()
-						// obj := obj.Nested
-						g.Id("obj").Op(":=").Id(objFieldName)
-					} else {
-						// obj := &obj.Nested
-						g.Id("obj").Op(":=&").Id(objFieldName)
 					}
-
-					m.GenerateFields(g)
+					return
 				}
+
+				// tf := v
+				g.Id("tf").Op(":=").Id("v")
+
+				if f.IsNullable {
+					// obj.Nested = &Nested{}
+					g.Id(objFieldName).Op("=&").Id(f.i.WithType(f.GoElemTypeIndirect)).Values()
+					// obj := obj.Nested
+					g.Id("obj").Op(":=").Id(objFieldName)
+				} else {
+					// obj := &obj.Nested
+					g.Id("obj").Op(":=&").Id(objFieldName)
+				}
+
+				m.GenerateFields(g)
 			})
 		} else {
 			// We do not need nullable checks because all oneOf branches are nullable by design
